@@ -19,6 +19,7 @@ import gomod
 import gogen
 import k4
 import trcorr
+import scopecorr
 
 LEVEL = "proof"
 FINDINGS = os.path.join(C.VERIF, "findings", "C01")
@@ -140,6 +141,18 @@ def check(ctx, build=None):
             stats["skeletons_rejected"] += st.get("rejected", 0)
             if bad and not any(b["kind"] == "correspondence" for b in build.broken):
                 build.broken.append({"kind": "correspondence", "name": "tr: Model.Tr.trStmts vs the structure goose emits", "detail": json.dumps(bad)[:2500]})
+        # ---- the scoping model against the real translator: emitted tree, native value, interpreter value
+        for ts in range(ctx.seed * 40 + 500, ctx.seed * 40 + 500 + (2 if ctx.tier == "quick" else 25)):
+            st, bad = scopecorr.run(ts, 30, scratch)
+            stats["scoping_programs"] += st["functions"]
+            stats["scoping_rejected"] += st.get("rejected", 0)
+            if bad and not any(b["name"].startswith("scope:") for b in build.broken):
+                build.broken.append({"kind": "correspondence", "name": "scope: Model.Scope.tr vs the tree goose emits / the values computed", "detail": json.dumps(bad)[:2500]})
+                if bad["what"] == "values differ" and not found:
+                    found = True
+                    ctx.violation("counterexample", "scoping: native Go, the model and the emitted GooseLang disagree on a program of :=, var, assignment, blocks and conditionals",
+                                  {"proto": "scope", "seed": ts, "function": bad["function"], "go_source": bad["go"]},
+                                  expected={"go": bad["native_go"]}, observed={"gooselang": bad["interpreter_on_emitted"], "model_go": bad["model_go_semantics"]})
         # ---- known findings: replay the committed witnesses
         known = {e["key"]: e for e in C.load_known("C01") if e.get("status") == "known"}
         for path in sorted(glob.glob(os.path.join(FINDINGS, "*.go")) + glob.glob(os.path.join(FINDINGS + "-fixed", "*.go"))):
